@@ -39,7 +39,7 @@ def generate(seed, stratum, tier):
   kw, ops, weights = {}, ('ev', 'read'), (6, 1)
   if combo[0] in ('queued', 'ao') and rng.random() < 0.5:
     # handlers (also entry, exit and init actions) post and set aside events while the step is being recorded
-    kw = {'fx_rate': rng.choice([0.2, 0.4]), 'fx_ops': ('post_fifo', 'defer', 'defer_new', 'recall')}
+    kw = {'fx_rate': rng.choice([0.2, 0.4]), 'fx_ops': ('post_fifo', 'defer', 'defer_new', 'recall') + (('clear_spy',) if rng.random() < 0.3 else ())}
     if combo[0] == 'queued':
       ops, weights = ('ev', 'read', 'defer', 'recall', 'rtc'), (6, 1, 1, 1, 2)
   if combo[0] in ('queued', 'ao', 'factory') and rng.random() < 0.3:
